@@ -4,7 +4,7 @@ From TT Require Import Model.Doc Gen.StyleTables Model.Isd Model.Lcd Spec.IsdSpe
   Proofs.Common.ElemInd Proofs.C16.Basics Proofs.C16.Prov Proofs.C16.Static Proofs.C16.Refs Proofs.C16.Idem.
 
 Definition da_tag (a : attrs) : Z := match sget (e_styles a) p_DisplayAlign with Some (VEnum x) => x | _ => -1 end.
-Definition fp_attrs (a : attrs) : fp := (or0 (e_begin a), e_end a, e_WritingModeType_lrtb, da_tag a).
+Definition fp_attrs (c : lcd_cfg) (a : attrs) : fp := (or0 (e_begin a), e_end a, e_WritingModeType_lrtb, da_tag a, fp_align c (e_styles a)).
 
 Lemma lookup_fp_none ret f : lookup_fp ret f = None -> forall g t, In (g, t) ret -> fp_eqb g f = false.
 Proof.
@@ -13,14 +13,18 @@ Proof.
 Qed.
 
 (* two records of the same class have equal fingerprints *)
-Lemma same_class_fp d a b : da_tag a <> -1 -> same_class d a b = true -> fp_eqb (fp_attrs a) (fp_attrs b) = true.
+Lemma same_class_fp c d a b : da_tag a <> -1 -> same_class (c_pta c) d a b = true -> fp_eqb (fp_attrs c a) (fp_attrs c b) = true.
 Proof.
   unfold same_class, same_timing, fp_attrs, fp_eqb. intros Hda H.
-  apply andb_true_iff in H as [H Hd]. apply andb_true_iff in H as [H _]. apply andb_true_iff in H as [Hb He].
+  apply andb_true_iff in H as [H Hta]. apply andb_true_iff in H as [H Hd]. apply andb_true_iff in H as [H _]. apply andb_true_iff in H as [Hb He].
   unfold begin_of in Hb. unfold or0. rewrite Hb. cbn [andb]. rewrite Z.eqb_refl, andb_true_r.
   assert (oQ_eqb (e_end a) (e_end b) = true) as Ee.
   { destruct (e_end a) as [x|], (e_end b) as [y|]; try discriminate; [exact He | reflexivity]. }
-  rewrite Ee. cbn [andb]. unfold enum_eqb, da_tag in *.
+  rewrite Ee. cbn [andb].
+  assert (oZ_eqb (fp_align c (e_styles a)) (fp_align c (e_styles b)) = true) as Et.
+  { unfold fp_align. destruct (c_pta c); [|reflexivity]. cbn [negb orb] in Hta. unfold oenum_eqb in Hta.
+    destruct (sget (e_styles a) p_TextAlign) as [[]|], (sget (e_styles b) p_TextAlign) as [[]|]; try discriminate; [exact Hta | reflexivity]. }
+  rewrite Et, andb_true_r. unfold enum_eqb, da_tag in *.
   destruct (sget (e_styles a) p_DisplayAlign) as [[]|], (sget (e_styles b) p_DisplayAlign) as [[]|]; try discriminate; try congruence; exact Hd.
 Qed.
 
@@ -29,27 +33,27 @@ Section Loop.
   Hypothesis Hiw : sget inits p_WritingMode = None.
 
   Lemma region_done_fp r r2 wm nda : region_done c d inits r r2 wm nda ->
-    fp_attrs (eattrs r2) = region_fp r wm nda /\ da_tag (eattrs r2) <> -1.
+    fp_attrs c (eattrs r2) = region_fp c r r2 wm nda /\ da_tag (eattrs r2) <> -1.
   Proof.
     intros [st [Hl ->]]. pose proof (region_layout_final _ _ _ _ _ _ _ Hl) as [_ [_ [_ [_ Hd]]]].
-    assert (forall kv, In kv (e_styles (eattrs (style_elem c (anim_elem r)))) -> supported c (fst kv) = true) as Hs.
-    { rewrite eattrs_clean. cbn [e_styles style_attrs with_styles]. intros kv Hkv. apply In_keep_styles in Hkv. tauto. }
+    assert (forall kv, In kv (e_styles (eattrs (rstyle_elem c (anim_elem r)))) -> rsupported c (fst kv) = true) as Hs.
+    { rewrite eattrs_clean. cbn [e_styles rstyle_attrs with_styles]. intros kv Hkv. apply In_keep_rstyles in Hkv. tauto. }
     pose proof (region_layout_first _ _ _ _ _ _ _ Hl Hs Hiw) as [Ew [Hba _]].
     unfold fp_attrs, da_tag, region_fp. cbn [eattrs e_styles with_styles e_begin e_end]. rewrite Hd, Ew, eattrs_clean. cbn.
     split; [reflexivity|]. destruct Hba as [-> | ->]; discriminate.
   Qed.
 
   Lemma loop_pairwise ret rs out : loop_rel c d inits ret rs out ->
-    pairwise (fun a b => negb (same_class d a b)) (map eattrs (retained_of out)) = true /\
-    forall x g t, In x (retained_of out) -> In (g, t) ret -> fp_eqb g (fp_attrs (eattrs x)) = false.
+    pairwise (fun a b => negb (same_class (c_pta c) d a b)) (map eattrs (retained_of out)) = true /\
+    forall x g t, In x (retained_of out) -> In (g, t) ret -> fp_eqb g (fp_attrs c (eattrs x)) = false.
   Proof.
     intros H. induction H.
     - split; [reflexivity | intros x g t []].
     - destruct IHloop_rel as [IP IQ]. destruct (region_done_fp _ _ _ _ H) as [Ef Hda].
       unfold retained_of in *. cbn [flat_map snd fst app map pairwise]. split.
       + rewrite IP, andb_true_r. apply forallb_forall. intros b Hb. apply in_map_iff in Hb as [x [<- Hx]].
-        apply negb_true_iff. destruct (same_class d (eattrs r2) (eattrs x)) eqn:E; [|reflexivity].
-        apply (same_class_fp _ _ _ Hda) in E. rewrite Ef in E.
+        apply negb_true_iff. destruct (same_class (c_pta c) d (eattrs r2) (eattrs x)) eqn:E; [|reflexivity].
+        apply (same_class_fp c _ _ _ Hda) in E. rewrite Ef in E.
         rewrite (IQ x _ _ Hx (or_introl eq_refl)) in E. discriminate.
       + intros x g t [<-|Hx] Hg; [rewrite Ef; exact (lookup_fp_none _ _ H0 _ _ Hg) | exact (IQ x g t Hx (or_intror Hg))].
     - unfold retained_of in *. cbn [flat_map snd fst app]. exact IHloop_rel.
@@ -62,7 +66,7 @@ Proof.
   destruct Hi as [->|Hi]; [congruence | exact (IH Hi Hp)].
 Qed.
 
-Theorem merged_thm c d d' : lcd c d = Ok d' -> regions_have_ids d -> merged d d'.
+Theorem merged_thm c d d' : lcd c d = Ok d' -> regions_have_ids d -> merged (c_pta c) d d'.
 Proof.
   intros H Hids. unfold merged, merged_b. apply andb_true_iff. split.
   - apply forallb_forall. intros r2 Hr. destruct (lcd_region_prov _ _ _ _ H Hr) as [r [wm [nda [Hin Hd]]]].
